@@ -359,6 +359,55 @@ def scn_transformed_parameter_shared(kind, how):
     return scn
 
 
+def ob_setter_aliasing(kind):
+    """y handed to `tp.tensor = y` is the caller's tensor (a scratch buffer that is reused, a row of a larger matrix): writing into it
+    afterwards is not an update of the model. TransformedParameter keeps x = inv(y); its value and log-Jacobian stay those of x."""
+    def body():
+        from torchtree.core.parameter import Parameter, TransformedParameter
+        lo, hi = DOMAIN[kind]
+        g = torch.Generator().manual_seed(11)
+        n = 0
+        for trial in range(4):
+            x0 = torch.rand(3, generator=g, dtype=torch.float64) + 0.2
+            x1 = torch.rand(3, generator=g, dtype=torch.float64) + 0.3
+            t = make_transform(kind)
+            base = Parameter("x", x0.clone())
+            tp = TransformedParameter("y", base, t)
+            if trial % 2:
+                tp(), tp.tensor
+            buf = make_transform(kind)(x1).clone()
+            tp.tensor = buf
+            x_after = base.tensor.detach().clone()
+            with torch.no_grad():
+                buf.mul_(1.75).add_(0.125)          # the caller goes on using its own buffer
+            y_now = tp.tensor.detach().clone()
+            got = tp()
+            want_y = t(base.tensor)
+            want = t.log_abs_det_jacobian(base.tensor, want_y)
+            n += 1
+            for what, a, b in (("base parameter", base.tensor, x1), ("base parameter (unchanged by the caller's later write)", base.tensor, x_after),
+                               ("tensor", y_now, want_y), ("inverse of tensor", t.inv(y_now), base.tensor)):
+                if not torch.allclose(a, b, rtol=1e-10, atol=1e-12):
+                    raise Refuted("%s after `tp.tensor = buf` and an in-place write into buf by the caller: %s is %s, transform/inverse of the current base gives %s" % (
+                        kind, what, a.tolist(), b.tolist()), witness={"kind": kind, "x1": x1.tolist(), "trial": trial}, confirmed=True,
+                        replay={"kind": "custom", "contract": "C07", "func": "replay_setter_aliasing", "args": {"kind": kind}})
+            if not torch.allclose(got.sum(), want.sum(), rtol=1e-10, atol=1e-12):
+                raise Refuted("%s: TransformedParameter() returns %s, the log-Jacobian at its current value is %s (after the caller wrote into the buffer it had assigned)" % (
+                    kind, got.tolist(), want.tolist()), witness={"kind": kind, "x1": x1.tolist(), "trial": trial}, confirmed=True,
+                    replay={"kind": "custom", "contract": "C07", "func": "replay_setter_aliasing", "args": {"kind": kind}})
+        return {"backend": "enum", "cases": n, "bounded": "4 random points, float64",
+                "statement": "%s: after tp.tensor = buf, later in-place writes of the caller into buf change neither tp.tensor, nor inv(tp.tensor) = x, nor tp()" % kind}
+    return Ob("C07.transformed_parameter.setter_aliasing[%s]" % kind, "B", body, clause="the assigned tensor is not kept (bounded)", funcs=FUNCS)
+
+
+def replay_setter_aliasing(args):
+    try:
+        ob_setter_aliasing(args["kind"]).fn()
+    except Refuted as e:
+        return False, str(e)
+    return True, "not reproduced"
+
+
 def ob_ladj_raises(kind_name, ctor):
     def body():
         t = ctor()
@@ -458,6 +507,8 @@ def obligations(tier, seed):
         for how in ("view", "sibling", "cat"):
             add("C07.transformed_parameter.shared_base.%s[%s]" % (kind, how), "scn_transformed_parameter_shared", (kind, how),
                 "TransformedParameter() returns the log-Jacobian of its current value (base changed through another consumer)")
+    for kind in ("log", "cumsumexp", "cumsumsoftplus", "softplus", "cumsum"):
+        obs.append(ob_setter_aliasing(kind))
     for dim in (1, 2, 3):
         add("C07.trilexp[dim=%d]" % dim, "scn_trilexp", (dim,), "log-Jacobian and inverse (triangular-exp)")
     import torchtree.distributions.transforms as tr
